@@ -1,10 +1,13 @@
-"""Contracts for dynamic_roots::Slots (C14). Row ids V.slots.<fn>.<clause>."""
+"""Contracts for dynamic_roots::Slots (C14). Row ids V.slots.<fn>.<clause>.
+Same architecture as the collector: Layer V proves the field-level relation (`*_post`) of each verbatim body under the representation
+invariant (which makes every panic! / expect unreachable); Layer L (verus_slots/slots_shim.rs: b_add_post, b_inc_post, b_dec_post) proves that
+each relation preserves the representation invariant."""
 S = {
     'slots.new': dict(requires=[], ensures=[('wf', ['C14'], 'wf(r, Seq::empty())'), ('empty', ['C14'], 'r.slots@.len() == 0')], body_serves=['C14']),
     'slots.add': dict(
         ghost_param='Ghost(free): Ghost<Seq<int>>',
         requires=['wf(*old(self), free)', 'old(self).slots@.len() < usize::MAX - 1'],
-        ensures=[('wf', ['C14'], 'wf(*final(self), free_after_add(*old(self), free))'),
+        ensures=[('rel', ['C14'], 'add_post(*old(self), *final(self), p, r as int)'),
                  ('slot', ['C14', 'C19'], 'holds(*final(self), r as int, p) && final(self).slots@[r as int]->ref_count == 0'),
                  ('fresh', ['C14'], 'r as int == old(self).slots@.len() || (r < old(self).slots@.len() && old(self).slots@[r as int] is Vacant)'),
                  ('others', ['C14'], 'others_same(*old(self), *final(self), r as int)')],
@@ -12,14 +15,14 @@ S = {
     'slots.inc': dict(
         ghost_param='Ghost(free): Ghost<Seq<int>>',
         requires=['wf(*old(self), free)', 'idx < old(self).slots@.len()', 'old(self).slots@[idx as int] is Occupied', 'old(self).slots@[idx as int]->ref_count < usize::MAX'],
-        ensures=[('wf', ['C14'], 'wf(*final(self), free)'),
+        ensures=[('rel', ['C14'], 'inc_post(*old(self), *final(self), idx as int)'),
                  ('count', ['C14'], 'final(self).slots@[idx as int] == (Slot::Occupied { root: old(self).slots@[idx as int]->root, ref_count: (old(self).slots@[idx as int]->ref_count + 1) as usize })'),
                  ('others', ['C14'], 'others_same(*old(self), *final(self), idx as int) && final(self).slots@.len() == old(self).slots@.len()')],
         body_serves=['C14']),
     'slots.dec': dict(
         ghost_param='Ghost(free): Ghost<Seq<int>>',
         requires=['wf(*old(self), free)', 'idx < old(self).slots@.len()', 'old(self).slots@[idx as int] is Occupied'],
-        ensures=[('wf', ['C14'], 'wf(*final(self), free_after_dec(*old(self), free, idx as int))'),
+        ensures=[('rel', ['C14'], 'dec_post(*old(self), *final(self), idx as int)'),
                  # a slot is vacated only when its last handle goes; otherwise it keeps holding the same pointer
                  ('count', ['C14'], 'if old(self).slots@[idx as int]->ref_count == 0 { final(self).slots@[idx as int] is Vacant } else { final(self).slots@[idx as int] == (Slot::Occupied { root: old(self).slots@[idx as int]->root, ref_count: (old(self).slots@[idx as int]->ref_count - 1) as usize }) }'),
                  ('others', ['C14'], 'others_same(*old(self), *final(self), idx as int) && final(self).slots@.len() == old(self).slots@.len()')],
